@@ -138,6 +138,22 @@ Theorem C14_negative_power_disabled_error : forall rk inv spow a ke e,
   proper a -> is_arr a -> cre e < 0 -> is_student_error (py_binop false rk inv spow Pow a (Num ke e)).
 Proof. exact negative_power_disabled_error'. Qed.
 
+(* the switch itself (MathArray.enable_negative_powers sets the class flag, runs the block, then resets the flag to the DEFAULT
+   rather than to the previous value): inside a block that opens no further block every read sees the block's value, and the
+   choice of teardown is irrelevant for programs without a block inside a block -- it matters only under nesting
+   (C14_ex_nested_switch).  MatrixGrader.check_response is such an outer block; the harness observes the flag from inside. *)
+Theorem C14_switch_in_force : forall v body, no_with body = true ->
+  Forall (eq v) (fst (run default_negpow (With v body))).
+Proof. exact switch_in_force. Qed.
+Theorem C14_switch_teardown_irrelevant_without_nesting : forall p, nesting_free p = true ->
+  run default_negpow p = run_prev default_negpow p /\ snd (run default_negpow p) = default_negpow.
+Proof. exact switch_teardown_irrelevant_without_nesting. Qed.
+Example C14_ex_nested_switch :
+  fst (run default_negpow (With false (Seq (With true Obs) Obs))) = [true; true] /\
+  fst (run_prev default_negpow (With false (Seq (With true Obs) Obs))) = [true; false] /\
+  fst (run default_negpow (With false (Seq (With false Obs) Obs))) = [false; true].
+Proof. exact c14_ex_nested_switch. Qed.
+
 (* ---------------------------------------------------------------------------------------------------------
    Formula strings: the evaluation actions fold the same operators. *)
 Theorem C14_eval_sum_sound : forall negpow rk inv spow rest first r,
